@@ -1,7 +1,8 @@
 """C15 -- Thrift IDL parser inverts printing, independent of layout.
 
-proof gate   : fam/idl/coq/Properties/C15.v -- the full statement C15_roundtrip / C15_layout_free / C15_keyword_prefix(_document)
-               and one round-trip theorem per production
+proof gate   : fam/idl/coq/Properties/C15.v -- the full statement C15_roundtrip / C15_layout_free / C15_keyword_prefix(_document),
+               one round-trip theorem per production, and the converse C15_accepted_iff_printed (the parser accepts exactly
+               the prints of the well-formed concrete syntax trees; no exclusion)
 correspondence `idl-parse`, three-way, for the WHOLE grammar: documents of pv/idlgen.py (source AST -> canonical tree)
                printed under random / minimal / maximal layouts -> real parser (fam/idl/harness) -> canonical tree;
                the extracted Gallina parser (fam/idl/coq/Parser.v) parses the same text.
@@ -50,8 +51,9 @@ KEYWORD_PREFIX_DOCS = [
 BLANK_ONLY_DOCS = [" ", "\n", "// c\n", "# licence", "/* x */", " \t\r\n// a\n/* b */\n", "//"]
 
 
-# texts the parser accepts that lie in the exclusion `outside` of C15_accepted_is_printed (fam/idl/NOTES.md): their trees are
-# fixed here, so that implementation and model are seen to read them exactly as the notes say
+# texts that lay in the former exclusion `outside` of the converse theorem and are well-formed layouts since
+# C15_accepted_iff_printed (fam/idl/NOTES.md): kept as regression cases with their trees fixed here, so that implementation
+# and model are seen to read them exactly as the notes say.  (The name of the list is historical.)
 OUTSIDE_WF_DOCS = [
     ("const i8 c=[5x]", "(file - (const c (type i8 []) (list (int 5) (path x)) []))"),
     ("const i8 c=[true.5]", "(file - (const c (type i8 []) (list (bool true) (double \".5\")) []))"),
@@ -62,6 +64,15 @@ OUTSIDE_WF_DOCS = [
     ("service S { oneway.x f() }", "(file - (service S - ((fn f twoway (type (path oneway.x) []) () () [])) []))"),
     ("service S { throws f() }", "(file - (service S - ((fn f twoway (type (path throws) []) () () [])) []))"),
     ("typedef set T", "(file - (typedef (type (path set) []) T []))"),
+    # more of the same kind: an exponent / a hexadecimal constant that does not fit i64 is not an exponent / not hexadecimal,
+    # two '-' never start a double, a path ends before a '.' that no identifier follows
+    ("const i8 c=[5e99999999999999999999 0xfffffffffffffffffffff]",
+     "(file - (const c (type i8 []) (list (int 5) (path e99999999999999999999) (int 0) (path xfffffffffffffffffffff)) []))"),
+    ("const i8 c=[--1.5 1..5 5e]", "(file - (const c (type i8 []) (list (int 1) (double \".5\") (double \"1.\") (double \".5\") (int 5) (path e)) []))"),
+    ("service S { oneway(a='b') f() throws(a='b') g() }",
+     "(file - (service S - ((fn f twoway (type (path oneway) [a=\"b\"]) () () []) (fn g twoway (type (path throws) [a=\"b\"]) () () [])) []))"),
+    ("struct S { 1: list x 2: map<set,map> y }",
+     "(file - (struct S ((field 1 default (type (path list) []) x - []) (field 2 default (type (map (type (path set) []) (type (path map) []) -) []) y - [])) []))"),
 ]
 
 
@@ -76,7 +87,7 @@ def gen_cases(rng, tier):
     for t in BLANK_ONLY_DOCS:
         cases.append(("file " + ig.hx(t), "(file -)", "blank-only", None))
     for t, c in OUTSIDE_WF_DOCS:
-        cases.append(("file " + ig.hx(t), c, "outside-wf", None))
+        cases.append(("file " + ig.hx(t), c, "touching-layout", None))
     for i in range(n_docs):
         seed = rng.randrange(1 << 62)
         # the same document (same structural choices: the document generator is driven by its own seed) under
@@ -342,6 +353,7 @@ def printer_tie(chk, rng, hb=None):
                                              "concrete syntax tree of a WHOLE document (pv/idlgen.py CstGen: every production, every blank / "
                                              "separator / quote / numeric-spelling slot, the normal form wf_file demands); texts byte-identical, "
                                              "wf_file = true, erased tree = expected tree; the text then parsed by implementation and model")
+    chk.cov["layout_choices_drawn"] = dict(ig.TOUCH_STATS)
     for (t, c) in fexp[:1]:
         chk.sample(dict(kind="printer-tie-file", text=t[:200], expected=c[:200]))
     return res
